@@ -288,7 +288,12 @@ theorem inv_tick {s : Sys} (h : Inv s) (fl : Option Inflight)
 theorem sendAtomic_of_good {sh : Shapes} (hg : sh.good = true) (b : Bool) : sh.sendAtomic b = true := by
   unfold Shapes.good at hg
   simp only [Bool.and_eq_true] at hg
-  cases b <;> simp [Shapes.sendAtomic, hg.1.1.1, hg.1.1.2]
+  cases b <;> simp [Shapes.sendAtomic, hg.1.1.1.1.1, hg.1.1.1.1.2]
+
+theorem timerUncond_of_good {sh : Shapes} (hg : sh.good = true) : sh.timer.unconditional = true := by
+  unfold Shapes.good TimerShape.good at hg
+  simp only [Bool.and_eq_true] at hg
+  exact hg.1.2.2
 
 theorem inv_act (sh : Shapes) (hg : sh.good = true) (s : Sys) (a : Action) (h : Inv s) : Inv (act sh s a) := by
   cases a with
@@ -315,6 +320,32 @@ theorem inv_act (sh : Shapes) (hg : sh.good = true) (s : Sys) (a : Action) (h : 
         obtain ⟨q, hq1, hq2, hq3, hq4⟩ := h.infl fl hfl
         have hj : fl.ref < s.objs.length := (List.getElem?_eq_some_iff.mp hq1).1
         exact ⟨q, by show (s.objs ++ _)[fl.ref]? = some q; rw [List.getElem?_append_left hj]; exact hq1, hq2, hq3, hq4⟩ }
+  | query id ack cap =>
+    simp only [act]
+    exact {
+      objs := fun q hq => by
+        rcases List.mem_append.mp hq with hq | hq
+        · exact (h.objs q hq).mono
+        · simp only [List.mem_singleton] at hq; subst hq; exact QInv.fresh _ s.clock id ack cap
+      map := fun l j hl => by
+        show ∃ q, (s.objs ++ _)[j]? = some q ∧ q.lt = l
+        rw [alookup_ainsert] at hl
+        by_cases hk : (l == s.clock) = true
+        · simp only [hk, if_true, Option.some.injEq] at hl
+          subst hl
+          have : l = s.clock := by simpa using hk
+          exact ⟨{ lt := s.clock, id := id, ackWanted := ack, cap := cap }, by simp, this.symm⟩
+        · simp only [hk, Bool.false_eq_true, if_false] at hl
+          obtain ⟨q, hq1, hq2⟩ := h.map l j hl
+          have hj : j < s.objs.length := (List.getElem?_eq_some_iff.mp hq1).1
+          exact ⟨q, by rw [List.getElem?_append_left hj]; exact hq1, hq2⟩
+      infl := fun fl hfl => by
+        obtain ⟨q, hq1, hq2, hq3, hq4⟩ := h.infl fl hfl
+        have hj : fl.ref < s.objs.length := (List.getElem?_eq_some_iff.mp hq1).1
+        exact ⟨q, by show (s.objs ++ _)[fl.ref]? = some q; rw [List.getElem?_append_left hj]; exact hq1, hq2, hq3, hq4⟩ }
+  | witness t =>
+    simp only [act]
+    exact { objs := fun q hq => (h.objs q hq).mono, map := h.map, infl := h.infl }
   | deadline i =>
     simp only [act]
     exact inv_modAt h _ i s.map (fun _ _ x => x)
@@ -327,7 +358,7 @@ theorem inv_act (sh : Shapes) (hg : sh.good = true) (s : Sys) (a : Action) (h : 
     cases hi : s.objs[i]? with
     | none => simp only; exact inv_tick h s.inflight h.infl
     | some q0 =>
-      simp only
+      simp only [timerUncond_of_good hg, Bool.true_or, if_true]
       exact inv_modAt h _ i (aerase s.map q0.lt)
         (fun l j hl => by
           by_cases hk : l = q0.lt
@@ -418,5 +449,186 @@ theorem inv_act (sh : Shapes) (hg : sh.good = true) (s : Sys) (a : Action) (h : 
         have hq' : q ∈ s.objs := List.mem_of_getElem? ‹_›
         exact (h.objs q hq').frame rfl rfl rfl rfl rfl rfl rfl rfl rfl rfl rfl)
       (fun _ => rfl) (fun _ => rfl) (fun _ => rfl) (fun _ => rfl)
+
+/-! ### Queries issued through `Serf.Query` get distinct Lamport times and keep their table entry
+
+`Serf.Query` takes `queryClock.Increment() - 1` in one atomic step (regenerated: `Gen.ClockUse.query`),
+so — unlike the arbitrary `.register` action — concurrent `Query` calls never share a time. -/
+
+structure Inv2 (s : Sys) : Prop where
+  below : ∀ q ∈ s.objs, q.lt < s.clock
+  nodup : (s.objs.map (·.lt)).Nodup
+  own : ∀ i q, s.objs[i]? = some q → q.timedOut = false → alookup s.map q.lt = some i
+
+theorem inv2_init : Inv2 {} where
+  below := fun q hq => by simp at hq
+  nodup := by simp
+  own := fun i q h => by simp at h
+
+theorem map_lt_modAt (f : QR → QR) (hlt : ∀ q, (f q).lt = q.lt) : ∀ (l : List QR) (i : Nat),
+    (modAt f l i).map (·.lt) = l.map (·.lt) := by
+  intro l
+  induction l with
+  | nil => intro i; rfl
+  | cons q qs ih =>
+    intro i
+    cases i with
+    | zero => simp [modAt, hlt]
+    | succ i => simp [modAt, ih]
+
+theorem lt_ne_of_nodup {l : List QR} (hnd : (l.map (·.lt)).Nodup) {i j : Nat} {a b : QR}
+    (hi : l[i]? = some a) (hj : l[j]? = some b) (hne : i ≠ j) : a.lt ≠ b.lt := by
+  intro e
+  have hi' : (l.map (·.lt))[i]? = some a.lt := by simp [hi]
+  have hj' : (l.map (·.lt))[j]? = some b.lt := by simp [hj]
+  have hil : i < (l.map (·.lt)).length := (List.getElem?_eq_some_iff.mp hi').1
+  have : i = j := (List.getElem?_inj (j := j) hil hnd).mp (by rw [hi', hj', e])
+  exact hne this
+
+/-- An update of object `i` that keeps `lt` and never clears `timedOut` keeps `Inv2` (same table, same clock). -/
+theorem inv2_modAt {s : Sys} (h : Inv2 s) (f : QR → QR) (i : Nat)
+    (hlt : ∀ q, (f q).lt = q.lt) (hto : ∀ q, (f q).timedOut = false → q.timedOut = false)
+    (fl : Option Inflight) (now : Nat) :
+    Inv2 { s with objs := modAt f s.objs i, inflight := fl, now := now } where
+  below := fun q hq => by
+    rcases mem_modAt f s.objs i q hq with hm | ⟨q0, hq0, rfl⟩
+    · exact h.below q hm
+    · rw [hlt]; exact h.below q0 (List.mem_of_getElem? hq0)
+  nodup := by
+    show ((modAt f s.objs i).map (·.lt)).Nodup
+    rw [map_lt_modAt f hlt]; exact h.nodup
+  own := fun j q hj hto' => by
+    have hj' : (modAt f s.objs i)[j]? = some q := hj
+    rw [getElem?_modAt] at hj'
+    by_cases e : j = i
+    · subst e
+      simp only [if_true] at hj'
+      cases hq0 : s.objs[j]? with
+      | none => simp [hq0] at hj'
+      | some q0 =>
+        simp only [hq0, Option.map_some, Option.some.injEq] at hj'
+        subst hj'
+        rw [hlt]
+        exact h.own j q0 hq0 (hto q0 hto')
+    · simp only [e, if_false] at hj'
+      exact h.own j q hj' hto'
+
+theorem send_timedOut (now : Nat) (r : Reply) (q : QR) : (send now r q).timedOut = q.timedOut := by
+  unfold QueryRoute.send; split; rfl; split <;> split <;> rfl
+
+theorem inv2_act (sh : Shapes) (hg : sh.good = true) (s : Sys) (a : Action) (ha : a.isRegister = false)
+    (h : Inv2 s) : Inv2 (act sh s a) := by
+  cases a with
+  | register lt id ack cap => simp [Action.isRegister] at ha
+  | query id ack cap =>
+    simp only [act]
+    exact {
+      below := fun q hq => by
+        rcases List.mem_append.mp hq with hq | hq
+        · have := h.below q hq; show q.lt < s.clock + 1; omega
+        · simp only [List.mem_singleton] at hq; subst hq; show s.clock < s.clock + 1; omega
+      nodup := by
+        show ((s.objs ++ [({ lt := s.clock, id := id, ackWanted := ack, cap := cap } : QR)]).map (·.lt)).Nodup
+        rw [List.map_append, List.nodup_append]
+        refine ⟨h.nodup, by simp, ?_⟩
+        intro a ha' b hb
+        simp only [List.map_cons, List.map_nil, List.mem_singleton] at hb
+        subst hb
+        obtain ⟨q, hq, rfl⟩ := List.mem_map.mp ha'
+        have := h.below q hq
+        omega
+      own := fun j q hj hto => by
+        have hj' : (s.objs ++ [({ lt := s.clock, id := id, ackWanted := ack, cap := cap } : QR)])[j]? = some q := hj
+        show alookup (ainsert s.map s.clock s.objs.length) q.lt = some j
+        by_cases hlt : j < s.objs.length
+        · rw [List.getElem?_append_left hlt] at hj'
+          have hb := h.below q (List.mem_of_getElem? hj')
+          have hne : q.lt ≠ s.clock := by omega
+          rw [alookup_ainsert_ne _ _ _ _ hne]
+          exact h.own j q hj' hto
+        · have hge : s.objs.length ≤ j := by omega
+          rw [List.getElem?_append_right hge] at hj'
+          have hj0 : j - s.objs.length = 0 := by
+            cases hk : j - s.objs.length with
+            | zero => rfl
+            | succ k => rw [hk] at hj'; simp at hj'
+          rw [hj0] at hj'
+          simp only [List.getElem?_cons_zero, Option.some.injEq] at hj'
+          subst hj'
+          have : j = s.objs.length := by omega
+          subst this
+          exact alookup_ainsert_self _ _ _ }
+  | witness t =>
+    simp only [act]
+    exact {
+      below := fun q hq => by
+        have := h.below q hq
+        show q.lt < (if s.clock ≤ t then t + 1 else s.clock)
+        split <;> omega
+      nodup := h.nodup
+      own := h.own }
+  | deadline i =>
+    simp only [act]
+    exact inv2_modAt h (fun q => { q with pastDeadline := true }) i (fun _ => rfl) (fun _ x => x) _ _
+  | timeout i =>
+    simp only [act]
+    cases hi : s.objs[i]? with
+    | none => exact { below := h.below, nodup := h.nodup, own := h.own }
+    | some q0 =>
+      simp only [timerUncond_of_good hg, Bool.true_or, if_true]
+      have hm := inv2_modAt h (fun q => { close s.now q with timedOut := true }) i
+        (fun q => close_lt _ q) (fun q hx => by simp at hx) s.inflight (s.now + 1)
+      exact {
+        below := hm.below
+        nodup := hm.nodup
+        own := fun j q hj hto => by
+          have hj' : (modAt (fun q => { close s.now q with timedOut := true }) s.objs i)[j]? = some q := hj
+          show alookup (aerase s.map q0.lt) q.lt = some j
+          rw [getElem?_modAt] at hj'
+          by_cases e : j = i
+          · subst e
+            simp only [if_true, hi, Option.map_some, Option.some.injEq] at hj'
+            subst hj'
+            simp at hto
+          · simp only [e, if_false] at hj'
+            have hne : q.lt ≠ q0.lt := lt_ne_of_nodup h.nodup hj' hi e
+            rw [alookup_aerase_ne _ _ _ hne]
+            exact h.own j q hj' hto }
+  | arrive r =>
+    simp only [act]
+    cases s.inflight with
+    | some f => exact { below := h.below, nodup := h.nodup, own := h.own }
+    | none =>
+      simp only
+      cases alookup s.map r.lt with
+      | none => exact { below := h.below, nodup := h.nodup, own := h.own }
+      | some k => exact { below := h.below, nodup := h.nodup, own := h.own }
+  | replyStep =>
+    simp only [act, QueryRoute.replyStep]
+    cases s.inflight with
+    | none => exact { below := h.below, nodup := h.nodup, own := h.own }
+    | some f =>
+      simp only
+      cases s.objs[f.ref]? with
+      | none => exact { below := h.below, nodup := h.nodup, own := h.own }
+      | some q1 =>
+        simp only
+        by_cases h2 : f.stage ≤ 2
+        · simp only [h2, if_true]; split <;> exact { below := h.below, nodup := h.nodup, own := h.own }
+        · simp only [h2, if_false]
+          by_cases h3 : f.stage = 3
+          · simp only [h3, if_true]; split <;> exact { below := h.below, nodup := h.nodup, own := h.own }
+          · simp only [h3, if_false]
+            by_cases h4 : f.stage = 4
+            · simp only [h4, if_true]; split <;> split <;> exact { below := h.below, nodup := h.nodup, own := h.own }
+            · simp only [h4, if_false]
+              rw [if_pos (sendAtomic_of_good hg f.r.isAck)]
+              exact inv2_modAt h _ f.ref (fun q => send_lt _ _ q) (fun q hx => by rw [send_timedOut] at hx; exact hx) _ _
+  | consumeAck i =>
+    simp only [act]
+    exact inv2_modAt h (fun q => { q with ackBuf := q.ackBuf - 1 }) i (fun _ => rfl) (fun _ x => x) _ _
+  | consumeResp i =>
+    simp only [act]
+    exact inv2_modAt h (fun q => { q with respBuf := q.respBuf - 1 }) i (fun _ => rfl) (fun _ x => x) _ _
 
 end SerfProofs.QueryRoute
